@@ -128,6 +128,9 @@ fn main() {
     p!("LABEL_LENGTH_OFFSET", *counters::LABEL_LENGTH_OFFSET);
     p!("KEY_OFFSET", *counters::KEY_OFFSET);
     p!("TYPE_ID_OFFSET", *counters::TYPE_ID_OFFSET);
+    // client heartbeat counter / error codes (C11, C12)
+    p!("CLIENT_HEARTBEAT_TYPE_ID", aeron_rs::heartbeat_timestamp::CLIENT_HEARTBEAT_TYPE_ID);
+    p!("MAX_MOMENT", aeron_rs::utils::types::MAX_MOMENT);
     // command / event struct sizes
     p!("CLIENT_TIMEOUT_LENGTH", client_timeout_flyweight::CLIENT_TIMEOUT_LENGTH);
     p!("CORRELATED_MESSAGE_LENGTH", correlated_message_flyweight::CORRELATED_MESSAGE_LENGTH);
